@@ -253,6 +253,31 @@ def run_histories(spec):
                 for reps in (1, 2, 3, 5):
                     check([o] * reps, "after_repeated_fatal:%s" % o[0])
             check([opens[0], opens[1], opens[0], opens[2]], "after_repeated_fatal:mixed")
+    # files on either side of an internal limit, each history in a process of its own (same call depth as the
+    # reference): a refusal - or an acceptance - must not depend on what the process refused before
+    if spec["shard"] % 4 == 3 or spec["tier"] == "thorough":
+        deep = ("deep.c", "#if " + "(" * 120 + "1" + ")" * 120 + "\n# define Y 1\n#endif\n")
+        chain = ("chain.c", "#if " + " + ".join(["1"] * 90) + "\n# define Y 1\n#endif\n")
+
+        def in_fresh_process(flist):
+            p = subprocess.run([PY, "-m", "nv.obsone"], input=json.dumps({"files": [list(f) for f in flist], "alone": False}).encode(),
+                               env=env_for_worker(), cwd=ROOT, stdout=subprocess.PIPE, stderr=subprocess.PIPE, timeout=300)
+            return json.loads(p.stdout) if p.returncode == 0 else None
+        for dpt in range(74, 96, 2):
+            tgt = ("edge%d.c" % dpt, "#if " + "(" * dpt + "1" + ")" * dpt + "\n# define Y 1\n#endif\n")
+            alone = in_fresh_process([tgt])
+            if not alone:
+                sh.inconclusive.append("no reference observation for %s" % tgt[0])
+                continue
+            for hist, label in (([tgt], "twice"), ([deep], "after_refused"), ([deep, deep, deep], "after_refused_x3"), ([chain, deep], "after_refused_mixed")):
+                out = in_fresh_process(hist + [tgt])
+                sh.case("edge\0%d\0%s" % (dpt, label))
+                sh.count("c06.observation_equals_reference")
+                sh.tally("histories", "near_limit_after_refusals")
+                if out is None or out[-1] != alone[0]:
+                    sh.violation("history_changes_observation", ("near_limit", label, str((out or [[None]])[-1][0]), str(alone[0][0])),
+                                 {"mode": "fresh_history", "history": [list(h) for h in hist], "target": list(tgt)},
+                                 {"label": label, "depth": dpt, "reference": alone[0][:2], "got": (out or [[None, None]])[-1][:2]})
     # sibling pairs: each one analysed right after the other, both ways
     if spec["tier"] == "thorough":
         sib = siblings
@@ -309,6 +334,16 @@ def run_perms(spec):
         for q, o, _ in pipework.sampled_variants(p, rng, 2):
             files.append([q.name, q.text()])
     files = files[:50] + [list(f) for f in FATALS[:2]]
+    # every keyword of the lexer's table as an argument, as a right side and as a statement: what a rule's word list
+    # holds at the time its module is imported shows on these
+    try:
+        from norminette.lexer.dictionary import keywords as _kw
+        words = sorted(_kw)
+    except Exception:
+        words = ["inline", "restrict", "register", "volatile", "const", "static", "sizeof", "typedef"]
+    for w in words:
+        files.append(["kw_%s.c" % w, "int\tf(int x)\n{\n\tfoo(%s, 1);\n\tx = %s;\n\treturn (x);\n}\n" % (w, w)])
+        files.append(["kw2_%s.c" % w, "int\tf(int x)\n{\n\tx = foo(x, %s) + %s(x);\n\treturn (x);\n}\n" % (w, w)])
     req = json.dumps({"files": files}).encode()
     ref = None
     for k in range(spec["perms"]):
@@ -430,6 +465,15 @@ def replay(case, sh):
         got = obs_now(case["target"][0], case["target"][1])
         if got != case["reference"]:
             sh.violation("history_changes_observation", ("replay",), case, {"got": got[:2], "reference": case["reference"][:2]})
+    elif case["mode"] == "fresh_history":
+        def fresh(flist):
+            p = subprocess.run([PY, "-m", "nv.obsone"], input=json.dumps({"files": flist, "alone": False}).encode(),
+                               env=env_for_worker(), cwd=ROOT, stdout=subprocess.PIPE, stderr=subprocess.PIPE, timeout=300)
+            return json.loads(p.stdout) if p.returncode == 0 else None
+        a = fresh([case["target"]])
+        b = fresh(case["history"] + [case["target"]])
+        if a is None or b is None or a[0] != b[-1]:
+            sh.violation("history_changes_observation", ("replay",), case, {})
     elif case["mode"] == "cliopts":
         import shutil
         import tempfile
